@@ -201,6 +201,10 @@ CATALOGUE = [
     ('C07-c', 'C07', A,
      "        current_sn = set([i.name for i in self.sockets.values()]) - ignore_sn\n",
      "        current_sn = set([i.name for i in self.sockets.values()])\n"),
+    # (EPERM on SIGKILL) a waiter takes a broken-off kill for a finished one
+    ('C02-d', 'C02', W,
+     "            if not process.kill_failed:\n                raise gen.Return(False)\n",
+     "            if True:\n                raise gen.Return(False)\n"),
 ]
 
 
